@@ -4,37 +4,6 @@ From Gv Require Import lib.Bytes lib.Json C02.Model C07.Model C07.Spec C07.Proof
 From Coq Require Import Lia PeanoNat.
 Open Scope N_scope.
 
-(* [sub_b a b]: a is b with some subtrees absent (object members missing) or null *)
-Fixpoint sub_b (a b : json) {struct a} : bool :=
-  match a with
-  | JNull => true
-  | JBool x => match b with JBool y => Bool.eqb x y | _ => false end
-  | JNum x => match b with JNum y => bytes_eqb x y | _ => false end
-  | JStr x => match b with JStr y => bytes_eqb x y | _ => false end
-  | JArr la =>
-    match b with
-    | JArr lb =>
-      (fix go (la lb : list json) {struct la} : bool :=
-         match la, lb with
-         | [], [] => true
-         | x :: la', y :: lb' => sub_b x y && go la' lb'
-         | _, _ => false
-         end) la lb
-    | _ => false
-    end
-  | JObj ma =>
-    match b with
-    | JObj mb =>
-      (fix go (ma : list (bytes * json)) : bool :=
-         match ma with
-         | [] => true
-         | (k, v) :: r => (match obj_get k mb with Some v' => sub_b v v' | None => false end) && go r
-         end) ma
-    | _ => false
-    end
-  end.
-Definition sub (a b : json) : Prop := sub_b a b = true.
-
 Fixpoint sub_list (la lb : list json) : bool :=
   match la, lb with
   | [], [] => true
